@@ -17,6 +17,10 @@ func (f *FA) relSpan(v ssa.Value) (root ssa.Value, lo, hi LF, hiOpen bool) {
 	for {
 		switch x := v.(type) {
 		case *ssa.Slice:
+			if isOffsetCursor(x) {
+				// b[offset:] with offset a loop-carried index: the current element of a walk, a cursor of its own
+				break
+			}
 			chain = append(chain, x)
 			v = x.X
 			continue
@@ -42,6 +46,26 @@ func (f *FA) relSpan(v ssa.Value) (root ssa.Value, lo, hi LF, hiOpen bool) {
 		}
 	}
 	return
+}
+
+// isOffsetCursor: s = base[i:] where i is an integer φ-node of a loop header (an offset that walks base).
+func isOffsetCursor(s *ssa.Slice) bool {
+	if s.High != nil || s.Low == nil {
+		return false
+	}
+	p, ok := s.Low.(*ssa.Phi)
+	if !ok {
+		return false
+	}
+	if _, isParam := s.X.(*ssa.Parameter); !isParam {
+		return false
+	}
+	for _, pr := range p.Block().Preds {
+		if p.Block().Dominates(pr) {
+			return true
+		}
+	}
+	return false
 }
 
 // invokeOnField finds the value of `recv.<field>.<method>()` calls in fn (receiver = parameter recvIdx).
